@@ -62,6 +62,9 @@ func act(id string, args ...interface{}) error {
 			code, _ = strconv.Atoi(parts[1])
 		}
 		msg := "FAIL-" + id
+		if m := os.Getenv("VERIF_MSG"); m != "" {
+			msg = m // every failure of this run carries the same message text
+		}
 		switch parts[0] {
 		case "error":
 			return errors.New(msg)
@@ -270,7 +273,7 @@ def o_status(fid, behs):
     raise ValueError(k)
 
 
-def o_tokens(fid, behs):
+def o_tokens(fid, behs, msg=None):
     """tokens the failure message on stderr must contain when fid fails (None: no claim, the process ended itself)"""
     b = behs.get(fid, ("ok",))
     k = b[0]
@@ -287,17 +290,17 @@ def o_tokens(fid, behs):
     if k in ("deps", "ctxdeps"):
         out = []
         for d in b[1]:
-            out += o_tokens(d, behs) or []
+            out += o_tokens(d, behs, msg) or []
         return out
     if k == "sdeps":
         for d in b[1]:
             if o_status(d, behs) != 0:
-                return o_tokens(d, behs)
+                return o_tokens(d, behs, msg)
         return []
-    return ["FAIL-" + fid]
+    return [msg or ("FAIL-" + fid)]
 
 
-def oracle_line(mentions, behs):
+def oracle_line(mentions, behs, msg=None):
     """(exit, number of requested targets started, tokens) for a command line of mentions"""
     ran = 0
     for m in mentions:
@@ -306,7 +309,7 @@ def oracle_line(mentions, behs):
         ran += 1
         s = o_status(m["id"], behs)
         if s != 0:
-            return s, ran, o_tokens(m["id"], behs)
+            return s, ran, o_tokens(m["id"], behs, msg)
     return 0, ran, []
 
 
@@ -372,7 +375,8 @@ def scen(fa=None, bd=None, start=True, pr=None, init_err=False, clean_err=False,
 
 # ---------------------------------------------------------------- generators
 SAMPLE_CODES = [1, 2, 3, 5, 7, 37, 64, 99, 100, 125, 126, 127, 128, 129, 130, 137, 143, 200, 250, 254, 255]
-CODE_KINDS = ["fatal", "fatalf", "panic-fatal", "osexit", "sh", "deps-equal", "deps-diff"]
+CODE_KINDS = ["fatal", "fatalf", "panic-fatal", "osexit", "sh", "deps-equal", "deps-diff", "deps-sametext-equal", "deps-sametext-diff"]
+SAME_TEXT = "step failed"
 PLAIN_KINDS = ["error", "panic-error", "panic-string", "panic-int", "shnotran"]
 LEAF_DEPS = ["d1", "d2", "d3", "d4", "d5", "d6"]
 
@@ -415,6 +419,31 @@ def gen_failure(rng, fid, kind, c, behs):
                 behs[d] = leaf_failure(rng, other_code(rng, c)) if r < 0.6 else ((rng.choice(["error", "panic-error", "panic-string"]),) if (r < 0.9 or c == 1) else ("osexit", other_code(rng, c)))
             else:
                 behs[d] = rng.choice([("ok",), leaf_failure(rng, c), leaf_failure(rng, other_code(rng, c)), ("error",)])
+        rng.shuffle(ds)
+        behs[fid] = (rng.choice(["deps", "deps", "ctxdeps", "sdeps"]), ds)
+    elif kind in ("deps-sametext-equal", "deps-sametext-diff"):
+        # the failing members all carry the SAME message text (the line sets VERIF_MSG): the text must play no role,
+        # only the codes are combined.  One member may fail through a dependency set of its own.
+        text_leaf = lambda code: (rng.choice(["fatal", "fatalf", "panic-fatal"]), code)
+        n = rng.choice([2, 2, 3, 4])
+        pool = ["d1", "d2", "d3", "d4"]
+        ds = rng.sample(pool, n)
+        for i, d in enumerate(ds):
+            if i == 0:
+                behs[d] = text_leaf(c)
+            elif i == 1:
+                if kind == "deps-sametext-equal":
+                    behs[d] = text_leaf(c)
+                else:
+                    behs[d] = text_leaf(other_code(rng, c)) if (rng.random() < 0.75 or c == 1) else (rng.choice(["error", "panic-error", "panic-string"]),)
+            else:
+                behs[d] = rng.choice([("ok",), text_leaf(c), text_leaf(c) if kind == "deps-sametext-equal" else text_leaf(other_code(rng, c))])
+        nestable = [d for d in ds if d in ("d1", "d2")]
+        if nestable and rng.random() < 0.45:
+            d = rng.choice(nestable)
+            inner = rng.choice(["d5", "d6"])
+            behs[inner] = behs[d]                      # the failure sits one level further down
+            behs[d] = (rng.choice(["deps", "sdeps"]), [inner])
         rng.shuffle(ds)
         behs[fid] = (rng.choice(["deps", "deps", "ctxdeps", "sdeps"]), ds)
     elif kind == "deps-nested":
@@ -478,7 +507,7 @@ def gen_line(rng, kind, c, npos=None):
                 gen_failure(rng, fid, rng.choice(["fatal", "error", "osexit"]), other_code(rng, c or 1), behs)
         mentions.append(m)
         words += w
-    return {"kind": "line", "fail": kind, "code": c, "pos": pos, "nmentions": len(mentions), "mentions": mentions, "behs": {k: list(v) for k, v in behs.items()}, "words": words}
+    return {"kind": "line", "fail": kind, "code": c, "pos": pos, "msg": (SAME_TEXT if kind.startswith("deps-sametext") or (kind in ("deps-diff", "deps-equal", "deps-nested") and rng.random() < 0.25) else None), "nmentions": len(mentions), "mentions": mentions, "behs": {k: list(v) for k, v in behs.items()}, "words": words}
 
 
 def line_cases(ctx):
@@ -512,7 +541,7 @@ def line_to_cases(ctx, l, idx):
     ments = []
     for m in l["mentions"]:
         ments.append(["run", abs_body(m["id"], behs)] if m["kind"] == "run" else [m["kind"]])
-    want = oracle_line(l["mentions"], behs)
+    want = oracle_line(l["mentions"], behs, l.get("msg"))
     out = []
     routes = ["compiled", "hash"]
     mage_share = 0.18 if ctx.quick else 0.5
@@ -520,7 +549,7 @@ def line_to_cases(ctx, l, idx):
         routes.append("mage")
     for r in routes:
         c = dict(l)
-        c.update(route=r, proj="main", args=list(l["words"]), env={}, want={"exit": want[0], "ran": want[1], "tokens": want[2]},
+        c.update(route=r, proj="main", args=list(l["words"]), env=({"VERIF_MSG": l["msg"]} if l.get("msg") else {}), want={"exit": want[0], "ran": want[1], "tokens": want[2]},
                  scen=scen(fa=fargs(nargs=len(l["words"]), hashfast=(r == "hash")), pr=prog(mentions=ments)), line=idx)
         out.append(c)
     return out
